@@ -63,6 +63,9 @@ FIRST_ARG_PRIMS = {
 SCALAR_MATH = {"prod", "sum", "sqrt", "ceil", "floor", "log", "log2", "exp", "abs", "max", "min", "mean", "round", "power", "sign", "square", "maximum", "minimum", "cumsum"}
 
 
+BOOLMASK = "<boolean mask argument>"
+
+
 def R(d):
     """labels of *real-valued reducers* (norm, abs, real, imag) the value may be nothing but: such a value is
     real-typed when the input is complex.  Optional 4th component of a datum; absent = empty."""
@@ -148,6 +151,21 @@ class Taint(Domain):
 
     def _promote(self, a, b, node, it):
         """datum of ``a (op) b`` for NumPy arithmetic"""
+        # the documented mask: an array of booleans.  bool is the weakest array type: combined with an array
+        # it takes that array's type; combined with a Python number it becomes an int64 / float64 array
+        # (`1 - mask`), which is strong and promotes single-precision data like any other 64-bit array
+        for x, y in ((a, b), (b, a)):
+            if BOOLMASK in x[1]:
+                rest = frozenset(x[1] - {BOOLMASK})
+                if BOOLMASK in y[1]:
+                    return (max(a[0], b[0]), a[1] | b[1], a[2] | b[2])
+                if y[0] == PY and not y[1] and not y[2]:
+                    lab = self.site(node, it, "arithmetic of the boolean mask with a Python number gives a 64-bit array")
+                    x2 = (UNK, rest | {lab}, x[2])
+                    return with_R((UNK, x2[1], x2[2]), E)
+                # an array (or a parameter, which is taken to be one): the mask does not change its type
+                x2 = (x[0], rest, x[2])
+                return self._promote(x2, y, node, it) if x is a else self._promote(y, x2, node, it)
         W = a[2] | b[2]
         S = a[1] | b[1]
         if (a[1] and not a[2] and b[0] == ARR and not b[1]) or (b[1] and not b[2] and a[0] == ARR and not a[1]):
@@ -419,6 +437,8 @@ def symbolic_args(f: FunctionInfo, it: Interp, clean=UNKNOWN):
             args[p] = Dct(None, Leaf(CLEAN))  # **context of the caller: carries the dtype
         elif p == f.vararg:
             args[p] = Lst(None, Sym(clean), ())
+        elif p == "mask" and clean is UNKNOWN:
+            args[p] = Sym((UNK, frozenset([BOOLMASK]), E))  # documented as an array of booleans
         else:
             args[p] = Sym(clean)
     return args
